@@ -71,6 +71,7 @@ func mainSeq(args []string) int {
 	out := fs.String("out", "", "trace output (ndjson)")
 	seed := fs.Int64("seed", 1, "seed of the spelling choice")
 	limit := fs.Int("stuck-ticks", 600, "5 ms ticks of running time without any recorded step after which a wait is given up")
+	maxStuck := fs.Int("max-stuck", 3, "stop after this many runs in which a wait was given up (their goroutines are lost)")
 	if err := fs.Parse(args); err != nil || *upath == "" || *spath == "" || *out == "" {
 		return 2
 	}
@@ -86,11 +87,14 @@ func mainSeq(args []string) int {
 	}
 	tk := newTicks()
 	defer tk.stop()
-	runNo, stuck, calls := 0, 0, 0
+	runNo, stuck, calls, stuckRuns := 0, 0, 0, 0
 	err = vcommon.ReadLines(*spath, func(raw json.RawMessage) error {
 		var sc Script
 		if e := json.Unmarshal(raw, &sc); e != nil {
 			return e
+		}
+		if stuckRuns >= *maxStuck {
+			return nil
 		}
 		runNo++
 		lines := runScript(u, sc, *seed, tk, *limit)
@@ -101,6 +105,9 @@ func mainSeq(args []string) int {
 		}
 		s, e := writeRun(w, runNo, sc.ID, "seq", lines)
 		stuck += s
+		if s > 0 {
+			stuckRuns++
+		}
 		return e
 	})
 	if e := w.Close(); err == nil {
